@@ -3,7 +3,8 @@
    (result, contents of the API server, contents of the store), never at model state.
 
    ack      : write-through, Save returned ok      => the API holds that condition (spec+status)
-   stop     : Stop returned ok on a running store  => every condition the store held is in the API
+   stop     : Stop returned ok on a running store  => every condition the store held is in the API;
+              a graceful stop by the limiter retries a failed Stop (up to 10 attempts) until one succeeds
    load     : Load returned ok                     => every persisted condition of the store's shard is
               loaded as persisted; on a new store nothing else is loaded
    deleted  : a condition whose Delete/DeleteUpstream was acknowledged and that was not saved
@@ -24,6 +25,7 @@ Record obs := mkObs {
   oipos : list (list (option res));    (* the same, per position of OFlush's [inter] (None = never issued) *)
   oapi : apist;                        (* RateLimitConditions in the API server after the op *)
   oloc : localst;                      (* List(Everything) of the store after the op ([] when there is none) *)
+  oatt : list res;                     (* OGStop: outcome of every Stop() attempt the limiter made *)
 }.
 
 Definition api_sub (a b : apist) : bool :=
@@ -78,8 +80,22 @@ Definition ack_ok (c : ctx) (o : op) (b : obs) : bool :=
   | _ => true
   end.
 
+Definition flushed_ok (c : ctx) (b : obs) : bool :=
+  forallb (fun p : key * body =>
+             match alookup String.eqb (snd (fst p)) (oapi b) with
+             | Some v => content_eqb v (snd p)
+             | None => false
+             end) (ploc c).
+
 Definition stop_ok (c : ctx) (o : op) (b : obs) : bool :=
   match o with
+  | OGStop _ _ =>
+      (* graceful stop by the limiter: it keeps trying until a Stop() succeeded or 10 attempts were made,
+         and after a successful attempt every condition the store held is in the API *)
+      if (calive c && negb (cstopped c))%bool then
+        ((res_eqb (last (oatt b) RErr) ROk || Nat.eqb (List.length (oatt b)) 10)
+         && (negb (res_eqb (ores b) ROk) || flushed_ok c b))%bool
+      else true
   | OStop _ _ =>
       if (calive c && negb (cstopped c) && res_eqb (ores b) ROk)%bool then
         forallb (fun p : key * body =>
@@ -220,7 +236,7 @@ Definition next_ctx (c : ctx) (o : op) (b : obs) : ctx :=
   | _ =>
       let alive := (calive c && negb (res_eqb (ores b) RCrash))%bool in
       let stp := match o with
-                 | OStop _ _ => (cstopped c || (calive c && res_eqb (ores b) ROk))%bool
+                 | OStop _ _ | OGStop _ _ => (cstopped c || (calive c && res_eqb (ores b) ROk))%bool
                  | _ => cstopped c
                  end in
       mkCtx alive (csh c) (cw c) stp false d (next_ack c o b) (oapi b) (oloc b)
